@@ -48,6 +48,13 @@ def _tables(rng, ph: bool):
     exprs = [[i, [rng.choice(["$a", "$a + 1", "$b[0]", "$zz"]), f"EXPRESSION{i:06d}"]] for i in ids if rng.random() < 0.5]
     incl = [[i, [f"#include 'f{i % 2}'", f"f{i % 2}", f"/p/f{i % 2}"]] for i in ids if rng.random() < 0.5]
     data_ph = {}
+    if ph and rng.random() < 0.25:
+        # an expression registered under a table key that differs from the number in its placeholder name (tables combined
+        # from two dicts): the placeholder in the data is NOT an entry of this table, its text stays what it is
+        i, j = rng.sample(range(12, 24), 2)
+        key = rng.choice(["a", "b", "k"])
+        exprs = exprs + [[j, [f"${key} * 2", f"EXPRESSION{i:06d}"]]]
+        data_ph[key] = f"EXPRESSION{i:06d}"
     if ph:
         for i, _ in lineC:
             if rng.random() < 0.8:
